@@ -366,7 +366,16 @@ Fixpoint mark_docs (l : list addr) : M (list addr) :=
       acquire LMeta (IDoc a) ;;;
       d <- try_finally
              (b <- probe a ;;
-              if b then d <- rename_for_deletion a ;; ret [d] else ret [])
+              if b then
+                (* a deletion marker of a concurrent delete may be removed by its owner between the
+                   test and the rename: tolerated (repaired DD) *)
+                r <- catch (rename_for_deletion a) ;;
+                match r with
+                | Val d => ret [d]
+                | Exn EFileNotFound => ret []
+                | Exn e => raise e
+                end
+              else ret [])
              (release LMeta (IDoc a)) ;;
       r <- mark_docs l' ;;
       ret (d ++ r)
@@ -388,10 +397,12 @@ Definition delete_metadata (p : pid) (f : option fmt) : M unit :=
   end.
 
 (* delete_object, :753-884 (repaired D3: the cid is read before the pid reference is renamed and
-   an emptied cid list is removed) *)
+   an emptied cid list is removed; repaired U1: the pid is also claimed in the reference-locked
+   list, which is what tag_object synchronises on) *)
 Definition delete_object (p : pid) : M unit :=
   try_finally
     (acquire LObjPid (IPid p) ;;;
+     acquire LRefPid (IPid p) ;;;
      r <- catch (find_object p) ;;
      match r with
      | Val c =>
@@ -430,7 +441,7 @@ Definition delete_object (p : pid) : M unit :=
          delete_marked [d]
      | Exn e => raise e
      end)
-    (release LObjPid (IPid p)).
+    (release LRefPid (IPid p) ;;; release LObjPid (IPid p)).
 
 (* the RefsFileExistsButCidObjMissing handler as it stood before the repair (D3), :843-864 *)
 Definition delete_object_unfixed (p : pid) : M unit :=
